@@ -354,8 +354,34 @@ impl Run {
         d
     }
 
+    /// A credential whose registration response never reached the relying party (the registration was cancelled after
+    /// the save): take its public key from the stored private scalar (d*G, computed by p256, not by the library).
+    pub fn learn_missing_pubkeys(&self) {
+        let creds: Vec<Passkey> = if let Some(c) = &self.extern_contents {
+            c.clone()
+        } else {
+            self.client.as_ref().map(|c| c.authenticator().store().contents()).unwrap_or_default()
+        };
+        let mut s = self.sh.lock().unwrap();
+        for p in creds {
+            let name = s.dict.cred_name(&p.credential_id);
+            if s.dict.pubkeys.iter().any(|(n, _)| *n == name) {
+                continue;
+            }
+            let d = p.key.params.iter().find_map(|(k, v)| match k {
+                coset::Label::Int(-4) => v.as_bytes().cloned(),
+                _ => None,
+            });
+            if let Some(sk) = d.and_then(|d| p256::SecretKey::from_slice(&d).ok()) {
+                let pt = p256::ecdsa::SigningKey::from(&sk).verifying_key().to_encoded_point(false).as_bytes().to_vec();
+                s.dict.pubkeys.push((name, pt));
+            }
+        }
+    }
+
     /// Relying-party reading of a get_assertion response.
     pub fn judge_ga(&mut self, r: &get_assertion::Response) -> Value {
+        self.learn_missing_pubkeys();
         let mut d = Self::end_default();
         d["ok"] = json!(true);
         {
